@@ -39,7 +39,11 @@ pub(crate) struct Derive {
 
 impl Derive {
     pub(crate) fn generate(self, mut features: Features) -> TokenStream {
+        #[cfg(feature = "verif-trace")]
+        let verif_pre = crate::verif_trace::snapshot(&features);
         features.resolve(&self);
+        #[cfg(feature = "verif-trace")]
+        crate::verif_trace::emit(&self, &verif_pre, &features);
 
         // names
         let names = Names::new(&features, &self);
